@@ -758,3 +758,134 @@ def inline_getters(ctx, c, _depth=0):
                         return t
                     return inline_getters(ctx, sub(body), _depth + 1)
     return c
+
+
+# ---- index obtained on a sorted copy used on the unsorted original ------------------------------------
+
+def check_sorted_copy_index(ctx, rep, rid, funcs):
+    """Within one function: container X is a copy of container Y (assignment / member initialiser) and is then permuted
+    (std::sort, stable_sort, reverse, shuffle ...). An index computed from an iterator into X (`it - X.begin()`, lower_bound /
+    upper_bound / find over X) designates a position in the *permuted* order: subscripting Y with it reads another element.
+    Returns the number of (X, Y) pairs examined."""
+    n = 0
+    for f in funcs:
+        if f.body is None:
+            continue
+        copies = {}      # canon(X) -> canon(Y)
+        for ci_ in f.ctor_inits:
+            an = ci_.get("anyInit") or {}
+            d = f.unit.by_id.get(an.get("id")) if an.get("id") else None
+            if d is not None and children(ci_):
+                src = canon(children(ci_)[-1])
+                if src[0] == "var":
+                    copies[("field", d.get("_q"), ("this",))] = src
+        for x in walk(f.body):
+            if x.get("kind") == "CXXOperatorCallExpr" and callee_info(x)["name"] == "operator=":
+                ch = children(x)
+                if len(ch) >= 3:
+                    l, r = canon(ch[1]), canon(ch[2])
+                    if l[0] in ("field", "var") and r[0] in ("var", "field") and l != r:
+                        copies[l] = r
+        permuted = set()
+        for x in walk(f.body):
+            if x.get("kind") == "CallExpr":
+                ci = callee_info(x)
+                if ci and ci["name"] in ("sort", "stable_sort", "reverse", "shuffle", "partial_sort", "nth_element", "rotate") and ci["args"]:
+                    a0 = canon(ci["args"][0])
+                    if a0[0] == "call" and a0[1] in ("begin", "rbegin") and a0[2] in copies:
+                        permuted.add(a0[2])
+        for X in permuted:
+            Y = copies[X]
+            n += 1
+            # locals holding a position in X
+            posvars = set()
+            for x in walk(f.body):
+                if x.get("kind") == "VarDecl" and children(x):
+                    c = canon(children(x)[-1])
+                    if any(t[0] == "call" and t[1] in ("begin", "cbegin") and t[2] == X for t in subterms(c)) and \
+                            any(t[0] in ("op", "bin") and "-" in str(t[1]) for t in subterms(c)):
+                        posvars.add(x.get("id"))
+            bad = None
+            for x in walk(f.body):
+                if x.get("kind") == "CXXOperatorCallExpr" and callee_info(x)["name"] == "operator[]":
+                    c = canon(x)
+                    if c[0] == "index" and c[1] == Y and any(t[0] == "var" and t[1] in posvars for t in subterms(c[2])):
+                        bad = x
+            what = "%s: %s is a sorted copy of %s" % (f.short, pretty(X), pretty(Y))
+            if bad is not None:
+                rep.violation(rid, bad, f, what, "%s is subscripted with a position computed in the sorted copy %s: another element is read whenever the "
+                              "original is not already in that order" % (pretty(Y), pretty(X)), key="%s|position of the sorted copy used on the original" % f.short)
+            else:
+                rep.holds(rid, f.decl, f, what, "positions found in the copy (%d local(s)) only subscript the copy" % len(posvars))
+    return n
+
+
+# ---- accumulators of an inner loop must be reset in every iteration of the outer loop ---------------------
+
+def check_loop_accumulators(ctx, rep, rid, funcs):
+    """A local that an inner loop updates from its own value (v = min(v, e), v = max(v, e), v += e, v.push_back(e), v = v || e) and
+    that the enclosing loop consumes after the inner loop is a *per-iteration accumulator*: it must be declared, or assigned a value
+    that does not depend on itself, inside the body of the enclosing loop before the inner loop. Hoisting its initialisation out of
+    the enclosing loop carries the previous iteration's result over. Returns the number of accumulators examined."""
+    LOOPS = ("ForStmt", "CXXForRangeStmt", "WhileStmt", "DoStmt")
+    n = 0
+    for f in funcs:
+        if f.body is None:
+            continue
+        for outer in [x for x in walk(f.body) if x.get("kind") in LOOPS]:
+            obody = [c for c in inner(outer) if isinstance(c, dict) and c.get("kind")][-1]
+            inners = [x for x in inner(obody) if isinstance(x, dict) and x.get("kind") in LOOPS] if obody.get("kind") == "CompoundStmt" else []
+            for il in inners:
+                accs = {}
+                for x in walk(il):
+                    k = x.get("kind")
+                    if k == "BinaryOperator" and x.get("opcode") == "=":
+                        l, r = canon(children(x)[0]), canon(children(x)[1])
+                        if l[0] == "var" and any(t[:2] == l[:2] for t in subterms(r)):
+                            accs[l[1]] = l
+                    elif k == "CompoundAssignOperator":
+                        l = canon(children(x)[0])
+                        if l[0] == "var":
+                            accs[l[1]] = l
+                    elif k == "CXXMemberCallExpr" and callee_info(x)["name"] in ("push_back", "emplace_back", "insert") and callee_info(x)["obj"] is not None:
+                        o = canon(callee_info(x)["obj"])
+                        if o[0] == "var":
+                            accs[o[1]] = o
+                inside_outer = {id(y) for y in walk(obody)}
+                inside_inner = {id(y) for y in walk(il)}
+                for vid, v in accs.items():
+                    d = f.unit.by_id.get(vid)
+                    if d is None or d.get("kind") != "VarDecl" or id(d) in inside_inner:
+                        continue
+                    # consumed by the outer loop after the inner one?
+                    uses_after = [r_ for r_ in ctx.eff.var_refs(f, vid) if id(r_) in inside_outer and id(r_) not in inside_inner and
+                                  (r_.get("range", {}).get("begin", {}).get("offset", 0) > il.get("range", {}).get("end", {}).get("offset", 0))]
+                    if not uses_after:
+                        continue
+                    n += 1
+                    ok = id(d) in inside_outer
+                    if not ok:
+                        for y in walk(obody):
+                            if id(y) in inside_inner:
+                                continue
+                            if y.get("range", {}).get("begin", {}).get("offset", 0) > il.get("range", {}).get("begin", {}).get("offset", 0):
+                                continue
+                            k = y.get("kind")
+                            if k == "BinaryOperator" and y.get("opcode") == "=":
+                                l, r = canon(children(y)[0]), canon(children(y)[1])
+                                if l[:2] == v[:2] and not any(t[:2] == v[:2] for t in subterms(r)):
+                                    ok = True
+                            elif k == "CXXMemberCallExpr" and callee_info(y)["name"] in ("clear", "assign", "resize") and callee_info(y)["obj"] is not None and \
+                                    canon(callee_info(y)["obj"])[:2] == v[:2]:
+                                ok = True
+                            elif k == "CXXOperatorCallExpr" and callee_info(y)["name"] == "operator=":
+                                ch = children(y)
+                                if len(ch) >= 3 and canon(ch[1])[:2] == v[:2] and not any(t[:2] == v[:2] for t in subterms(canon(ch[2]))):
+                                    ok = True
+                    what = "%s: accumulator %s of the inner loop, consumed once per iteration of the enclosing loop" % (f.short, v[2])
+                    if ok:
+                        rep.holds(rid, d, f, what, "initialised inside the enclosing loop")
+                    else:
+                        rep.violation(rid, il, f, what, "it is declared before the enclosing loop and never reset inside it: the value accumulated for the "
+                                      "previous iteration is carried over", key="%s|accumulator %s not reset per iteration" % (f.short, v[2]))
+    return n
